@@ -143,6 +143,31 @@ type Toy struct {
 	ChildID   int
 }
 
+// ParentTag is the join table of Parent.Tags (installed with SetupJoinTable): a
+// link is removed by marking its join row.
+type ParentTag struct {
+	ParentID  int `gorm:"primaryKey"`
+	TagID     int `gorm:"primaryKey"`
+	DeletedAt gorm.DeletedAt
+}
+
+// tagHook: Tag.AfterFind reads the parents through the hook's handle (a new
+// statement started from inside the tag query). Whether that nested statement is
+// unscoped follows Config.PropagateUnscoped, not the outer statement.
+var tagHook struct {
+	armed, ran bool
+	ids        []int
+	err        error
+}
+
+func (t *Tag) AfterFind(tx *gorm.DB) error {
+	if tagHook.armed && !tagHook.ran {
+		tagHook.ran = true
+		tagHook.err = tx.Model(&Parent{}).Pluck("id", &tagHook.ids).Error
+	}
+	return nil
+}
+
 type Tag struct {
 	ID        int `gorm:"primaryKey"`
 	Ca        int
@@ -248,7 +273,7 @@ type tcase struct {
 	UnscopedVia                   string   // "" = Unscoped() in the chain | propagated (Session{PropagateUnscoped}.Unscoped().Session{NewDB}) | dropped (Unscoped().Session{NewDB}: scoped again)
 	Cfg                           string   // "" | PrepareStmt | QueryFields | NoReturning | tx (read paths)
 	JoinPath                      []string // relation join names in call order, e.g. ["Parent.Grand", "Parent"]
-	Links                         [][2]int
+	Links                         [][3]int // parent id, tag id, state of the join row (live / marked)
 	History                       []hop
 	Path                          string // see paths
 	Variant                       string // first|take|last, update kind, relation, join type ...
@@ -455,12 +480,19 @@ func genCase(rt *rapid.T) tcase {
 			c.Flavour = ""
 		}
 	}
-	// (Unscoped().Session{NewDB} without PropagateUnscoped is not generated: whether
-	// the new statement is scoped again depends on the next call - Session{}
-	// turns the NewDB handle back into a clone of the unscoped statement - and
-	// no document says which it should be)
-	if x.N(10) == 0 {
+	// (Unscoped().Session{NewDB} followed by another Session{} / WithContext is not
+	// generated: that call turns the NewDB handle back into a clone of the unscoped
+	// statement and no document says which it should be; the direct use is)
+	switch x.N(10) {
+	case 0:
 		c.Unscoped, c.UnscopedVia = true, "propagated"
+	case 1:
+		// db.Unscoped().Session(&gorm.Session{NewDB: true}) used directly: PropagateUnscoped
+		// is off, so the new statement is scoped again
+		c.Unscoped, c.UnscopedVia = false, "dropped"
+		if len(c.Calls) > 0 {
+			c.Calls[0].Pre = ""
+		}
 	}
 	if x.Pct(25) {
 		c.Cfg = []string{"PrepareStmt", "QueryFields", "NoReturning", "tx"}[x.N(4)]
@@ -613,9 +645,13 @@ func (c *tcase) genTags(x interface {
 		for _, t := range c.Tags {
 			if t.ID < twinOff && p.ID < twinOff && x.Pct(45) {
 				// the twin parent carries the same links, the twin tag too
+				st := live
+				if x.Pct(35) {
+					st = marked // the link was removed (join row soft-deleted)
+				}
 				for _, pid := range []int{p.ID, p.ID + twinOff} {
 					for _, tid := range []int{t.ID, t.ID + twinOff} {
-						c.Links = append(c.Links, [2]int{pid, tid})
+						c.Links = append(c.Links, [3]int{pid, tid, st})
 					}
 				}
 			}
@@ -708,7 +744,7 @@ func setup(c *tcase) (*world, error) {
 			return fail("create", err)
 		}
 	}
-	if _, err := d.SQL.Exec("CREATE TABLE parent_tags (parent_id integer, tag_id integer, PRIMARY KEY (parent_id, tag_id))"); err != nil {
+	if _, err := d.SQL.Exec("CREATE TABLE parent_tags (parent_id integer, tag_id integer, deleted_at datetime, PRIMARY KEY (parent_id, tag_id))"); err != nil {
 		return fail("create", err)
 	}
 	// the primary table starts all live (its twins are marked through gorm below)
@@ -734,12 +770,22 @@ func setup(c *tcase) (*world, error) {
 			if i > 0 {
 				b.WriteByte(',')
 			}
-			fmt.Fprintf(&b, "(%d,%d)", l[0], l[1])
+			if l[2] == marked {
+				fmt.Fprintf(&b, "(%d,%d,'%s')", l[0], l[1], rawDeletedAt)
+			} else {
+				fmt.Fprintf(&b, "(%d,%d,NULL)", l[0], l[1])
+			}
 		}
 		if _, err := d.SQL.Exec(b.String()); err != nil {
 			return fail("insert links", err)
 		}
 	}
+	if len(c.Tags) > 0 {
+		if err := d.DB.SetupJoinTable(&Parent{}, "Tags", &ParentTag{}); err != nil {
+			return fail("SetupJoinTable", err)
+		}
+	}
+	tagHook.armed, tagHook.ran, tagHook.ids, tagHook.err = len(c.Tags) > 0, false, nil, nil
 	if joins {
 		w.prim, w.primSpec = append(table(nil), c.Children...), specChildren
 	} else {
@@ -1243,16 +1289,30 @@ func (w *world) run() (string, error) {
 		return w.judgeRead(w.prim, got, c.pred(), "Pluck"), nil
 	case "batches":
 		var ps []Parent
-		var got []int
+		var got, inner []int
+		var innerRan bool
+		var innerErr error
 		tx := w.chain(db).FindInBatches(&ps, c.Batch, func(tx *gorm.DB, batch int) error {
 			if batch > 300 {
 				return errors.New("harness: runaway FindInBatches")
 			}
 			got = append(got, parentIDs(ps)...)
+			if batch == 1 {
+				innerRan = true
+				innerErr = tx.Model(&Parent{}).Pluck("id", &inner).Error
+			}
 			return nil
 		})
 		if tx.Error != nil {
 			return "FindInBatches failed: " + tx.Error.Error(), nil
+		}
+		if innerErr != nil {
+			return "query inside the FindInBatches callback failed: " + innerErr.Error(), nil
+		}
+		if innerRan {
+			if msg := w.nestedVerdict("the statement inside the FindInBatches callback", inner); msg != "" {
+				return msg, nil
+			}
 		}
 		return w.judgeRead(w.prim, got, c.pred(), "FindInBatches"), nil
 	case "rows":
@@ -1469,12 +1529,12 @@ func (w *world) runPreload() (string, error) {
 					got = append(got, t.ID)
 				}
 				for _, l := range c.Links {
-					if l[0] == p.ID && c.Tags.isVisible(l[1], c.Unscoped) {
+					if l[0] == p.ID && c.Tags.isVisible(l[1], c.Unscoped) && (l[2] == live || c.Unscoped) {
 						want = append(want, l[1])
 					}
 				}
 				if !cond.SameIDs(sorted(got), sorted(want)) {
-					return fmt.Sprintf("Preload(Tags): parent %d got tags %v, want %v (the %s linked tags)", p.ID, got, want, vis(c.Unscoped)), nil
+					return fmt.Sprintf("Preload(Tags): parent %d got tags %v, want %v (the %s tags behind %s links)", p.ID, got, want, vis(c.Unscoped), vis(c.Unscoped)), nil
 				}
 			default:
 				var got, want []int
@@ -1564,19 +1624,29 @@ func (w *world) runAssoc() (string, error) {
 		pred = c.pred(cond.Atom("fk", cond.OpEq, cond.IntV(c.PK)))
 	} else {
 		env.MakeStruct = cond.StructMaker(reflect.TypeOf(Tag{}))
-		// many2many: the link is part of the JOIN, the chain is the whole WHERE
-		linked := map[int]bool{}
+		// many2many: the link is part of the JOIN; without Unscoped the join table's
+		// own soft-delete filter is AND-ed behind the chain (pseudo column fk = the
+		// join row is live)
+		linked := map[int]int{}
 		for _, l := range c.Links {
 			if l[0] == c.PK {
-				linked[l[1]] = true
+				linked[l[1]] = l[2] + 1
 			}
 		}
 		for _, r := range c.Tags {
-			if linked[r.ID] {
+			if st := linked[r.ID]; st != 0 {
+				r.FK = 0
+				if st-1 == live {
+					r.FK = 1
+				}
 				t = append(t, r)
 			}
 		}
-		pred = c.pred()
+		if c.Unscoped {
+			pred = c.pred()
+		} else {
+			pred = c.pred(cond.Atom("fk", cond.OpEq, cond.IntV(1)))
+		}
 	}
 	w.env = env
 	as := w.chain(db.Model(&owner)).Association(rel)
@@ -1664,6 +1734,28 @@ func (w *world) runDeleteAssoc() (string, error) {
 		return "Select(Children).Delete, children of parent " + fmt.Sprint(c.PK) + ": " + msg, nil
 	}
 	return "", nil
+}
+
+// nestedVerdict judges what a statement started from inside another one (hook,
+// batch callback) saw of the parents: live rows only, unless PropagateUnscoped
+// carries the outer Unscoped over.
+func (w *world) nestedVerdict(what string, ids []int) string {
+	un := w.c.Unscoped && w.c.UnscopedVia == "propagated"
+	want := cond.Select(w.prim.visible(un), nil)
+	if !cond.SameIDs(sorted(append([]int{}, ids...)), want) {
+		return fmt.Sprintf("%s read parents %v, want %v (the %s rows: PropagateUnscoped is %v)", what, ids, want, vis(un), un)
+	}
+	return ""
+}
+
+func (w *world) hookVerdict() string {
+	if !tagHook.ran {
+		return ""
+	}
+	if tagHook.err != nil {
+		return "query inside Tag.AfterFind failed: " + tagHook.err.Error()
+	}
+	return w.nestedVerdict("the statement inside Tag.AfterFind", tagHook.ids)
 }
 
 // noCondition: the chain carries no effective condition at all.
@@ -1833,7 +1925,11 @@ func check(c tcase) (string, error) {
 	if msg, err := w.history(); msg != "" || err != nil {
 		return msg, err
 	}
-	return w.run()
+	msg, err := w.run()
+	if msg == "" && err == nil {
+		msg = w.hookVerdict()
+	}
+	return msg, err
 }
 
 // ---- classification -------------------------------------------------------------------------------
@@ -1929,6 +2025,15 @@ func classes(c tcase) []string {
 	}
 	if c.Repeat {
 		cl = append(cl, "delete:repeated")
+	}
+	for _, l := range c.Links {
+		if l[2] == marked {
+			cl = append(cl, "m2m:marked-join-row")
+			break
+		}
+	}
+	if c.Unscoped && (c.Path == "batches" || len(c.Tags) > 0) {
+		cl = append(cl, "nested-statement-under-unscoped")
 	}
 	if c.PtrModel {
 		cl = append(cl, "model:"+c.Flavour+"-deleted-at", c.Flavour+"-deleted-at:"+c.Path)
